@@ -163,6 +163,16 @@ def run(ctx):
     )
     ctx.trusted = ["harness/gen_reads.py (cross-checked by C06/C07 on the same simulator)", "harness/gen_db.py", "harness/project.py", "TLC"]
     ctx.assumptions = ["long-read remapping, CRAM and 10X barcodes are out of reach", "shipped genes at real coordinates are not simulated (contig size)"]
+    # design level: a chain whose stage scores are the stage minima (what MC_MajorModel / MC_MinorModel / MC_CNEncoding
+    # establish for the planted genotype on noise-free evidence) survives both selection steps of the Pipeline model
+    # and is reported first, for every gap; the vacuity config must be violated (such a run with a rival exists)
+    ctx.mc("mc/MC_PlantedPipeline", "mc/MC_PlantedPipeline_quick.cfg" if quick else "mc/MC_PlantedPipeline.cfg",
+           label="MC_PlantedPipeline(planted chain survives the selections)", timeout=3000)
+    rv = ctx.mc("mc/MC_PlantedPipeline", "mc/MC_PlantedPipeline_vac.cfg", expect_ok=False, label="MC_PlantedPipeline(NeverZeroChainWithRival must be violated)")
+    if rv.violated != "NeverZeroChainWithRival":
+        from ..core import MachineryError
+
+        raise MachineryError(f"anti-vacuity config: expected violation of NeverZeroChainWithRival, got {rv.violated}")
     tasks = []
     for i in range(14 if quick else 140):
         tasks.append((rng.randrange(1 << 30), "toy" if i % 2 == 0 else "gendb", 3 if quick else 8))
